@@ -39,3 +39,61 @@ mod c11 {
         kani::cover!(r.is_err());
     }
 }
+
+#[cfg(kani)]
+mod c10 {
+    use pallas_crypto::hash::Hash;
+
+    /// the definite-length byte string a CBOR head at the front of `b` announces: (payload offset, payload length)
+    fn definite_bytes_head(b: &[u8]) -> Option<(usize, u64)> {
+        if b.is_empty() { return None; }
+        match b[0] {
+            0x40..=0x57 => Some((1, (b[0] - 0x40) as u64)),
+            0x58 if b.len() >= 2 => Some((2, b[1] as u64)),
+            0x59 if b.len() >= 3 => Some((3, u16::from_be_bytes([b[1], b[2]]) as u64)),
+            0x5a if b.len() >= 5 => Some((5, u32::from_be_bytes([b[1], b[2], b[3], b[4]]) as u64)),
+            0x5b if b.len() >= 9 => Some((9, u64::from_be_bytes([b[1], b[2], b[3], b[4], b[5], b[6], b[7], b[8]]))),
+            _ => None,
+        }
+    }
+
+    fn check<const BYTES: usize, const BUF: usize>() {
+        let buf: [u8; BUF] = kani::any();
+        let len: usize = kani::any();
+        kani::assume(len <= BUF);
+        let input = &buf[..len];
+        let r: Result<Hash<BYTES>, _> = pallas_codec_decode(input);
+        match definite_bytes_head(input) {
+            Some((off, n)) if (n as usize) <= len - off && n <= BUF as u64 => {
+                if n as usize == BYTES {
+                    // a byte string of exactly BYTES bytes is accepted and the hash is those bytes
+                    let h = r.expect("exact-length byte string rejected");
+                    assert!(h.as_ref() == &input[off..off + BYTES]);
+                } else {
+                    // a complete byte string of any other length is rejected
+                    assert!(r.is_err());
+                }
+            }
+            // anything else (other major types, indefinite strings, truncated input) never yields a hash
+            _ => assert!(r.is_err()),
+        }
+    }
+    fn pallas_codec_decode<const BYTES: usize>(input: &[u8]) -> Result<Hash<BYTES>, ()> {
+        let mut d = pallas_codec::minicbor::Decoder::new(input);
+        let mut ctx = ();
+        <Hash<BYTES> as pallas_codec::minicbor::Decode<()>>::decode(&mut d, &mut ctx).map_err(|_| ())
+    }
+
+    /// C10 "hash values ... reject wrong lengths": the real (non-relaxed) `impl Decode for Hash<BYTES>` on every input of up to
+    /// BYTES + 10 bytes (all heads incl. non-minimal ones, all contents). BYTES = 4 keeps CBMC small; the code is generic in BYTES.
+    #[kani::proof]
+    #[kani::unwind(16)]
+    fn c10_hash_decode_length_checked_bounded() {
+        check::<4, 14>();
+    }
+    #[kani::proof]
+    #[kani::unwind(40)]
+    fn c10_hash28_decode_length_checked_bounded() {
+        check::<28, 38>();
+    }
+}
